@@ -82,10 +82,17 @@ def roundtrip_case(M, n, centered, l1kind):
     return goals
 
 
-def reverse_case(M, n, centered, l1kind):
+def reverse_case(M, n, centered, l1kind, int_points=None):
     """the other composition: cartesian -> barycentric -> cartesian, on the caller's own array"""
     from dreye.api.barycentric import barycentric_to_cartesian, cartesian_to_barycentric
-    P = M.real("P", (2, n - 1), sample=lambda r, s: r.uniform(-0.3, 0.3, size=s))
+    if int_points is not None:
+        # integer-typed cartesian points (lattice points, np.zeros(..., int)): exact constants in the symbolic / exact runs, a genuine int64 array on the real code
+        P = np.array(int_points, dtype=np.int64)
+        if M.symbolic:
+            P = symnp.const(P.astype(float))
+        M.snaps["P"] = np.array(P, copy=True).view(np.ndarray); M.inputs["P"] = P
+    else:
+        P = M.real("P", (2, n - 1), sample=lambda r, s: r.uniform(-0.3, 0.3, size=s))
     L1 = {"none": lambda: None, "scalar": lambda: M.real("L1", (), sample=lambda r, s: r.uniform(0.5, 3.0)),
           "vec": lambda: M.real("L1", (2,), sample=lambda r, s: r.uniform(0.5, 3.0, size=s))}[l1kind]()
     l1 = [1, 1] if L1 is None else ([L1, L1] if np.ndim(L1) == 0 else list(np.asarray(L1)))
@@ -162,6 +169,9 @@ def cases(tier, seed):
             for l1kind in ("none", "scalar", "vec"):
                 add(f"inverse round trip n={n} centered={centered} L1={l1kind}", "roundtrip_case", n=n, centered=centered, l1kind=l1kind)
                 add(f"reverse round trip n={n} centered={centered} L1={l1kind}", "reverse_case", n=n, centered=centered, l1kind=l1kind)
+    for centered in (False, True):
+        add(f"reverse round trip n=3 centered={centered} integer-typed points", "reverse_case", n=3, centered=centered, l1kind="none", int_points=[[0, 0], [1, -1]])
+        C[-1]["opts"].update(float_strict=True)
     for d in (2, 3):  # d = 4 was probed in both tiers: z3 returns unknown after 120 s even for one point (stated bound: dimension <= 3)
         for npts in (1, 2):
             add(f"n-sphere d={d} points={npts}", "sphere_case", d=d, npts=npts)
